@@ -9,6 +9,7 @@ From GI Require Import Gen.LockedFileConsts LockedFile.LockedFile LockedFile.Loc
   LockedFile.LockedFileA LockedFile.LockProofsA.
 From GI Require Import LockedFile.Policy LockedFile.PolicyProofs LockedFile.PolicyCall LockedFile.PolicyLock.
 From GI Require Import LockedFile.ApiCloses.
+From GI Require Import LockedFile.Handles LockedFile.HandleProofs.
 Import ListNotations.
 
 Theorem C06_write_flags_exclusive : forall flags,
@@ -325,3 +326,86 @@ Theorem C06_api_closes_on_every_path :
 Proof. exact api_closes_on_every_path. Qed.
 Print Assumptions C06_api_closes_on_every_path.
 
+
+(* ---- fifth wave: the objects a process holds, over histories (Handles.v).  One process makes
+   any sequence of OpenFile / Close (also repeated) / drop-the-reference / garbage collection /
+   MutexAt / Lock / unlock-function calls; descriptor numbers are reused after close(2). *)
+
+(* the facts about the Go objects the handle model rests on, regenerated from the source: Close
+   checks and sets f.closed before closeFile; OpenFile hands out a File it has just allocated; the
+   unlock function is exactly mu.mu.Unlock(); f.Close(); mu.mu.Lock() follows the locked open *)
+Theorem C06_handle_objects_as_modelled :
+  close_checks_closed_first = true /\ openfile_fresh_file = true /\
+  mutex_unlock_body_plain = true /\ mutex_inner_lock_after_open = true.
+Proof. exact handle_objects_as_modelled. Qed.
+Print Assumptions C06_handle_objects_as_modelled.
+
+(* the invariant (descriptors, lock-table entries and unclosed Files correspond one to one)
+   holds in every state the process can reach *)
+Theorem C06_handle_invariant_reachable : forall f evs, hinv (hrun (hinit f) evs).
+Proof. exact hinv_reachable. Qed.
+Print Assumptions C06_handle_invariant_reachable.
+
+(* held from the return of the call until Close / the unlock function is CALLED — not until the
+   next garbage collection, not until somebody closes a stale File with the same descriptor
+   number, not until the reference is dropped: over any history without that call *)
+Theorem C06_handle_held_until_close : forall s evs h f,
+  hinv s -> nth_error (h_files s) h = Some f -> open_handle f = true ->
+  ~ In (HClose h) evs -> ~ In (HMUnlock h) evs ->
+  exists f', nth_error (h_files (hrun s evs)) h = Some f' /\ core f' = core f /\
+    isopen (fds (h_os (hrun s evs)) (hf_fd f)) = true /\
+    holds (hf_fd f) (hf_kind f) (ltab (h_os (hrun s evs)) (hf_ino f)) = true.
+Proof. exact handle_held_until_close. Qed.
+Print Assumptions C06_handle_held_until_close.
+
+(* ... and released by that call *)
+Theorem C06_handle_close_releases : forall s h f,
+  hinv s -> h_stuck s = false -> h_panic s = false ->
+  nth_error (h_files s) h = Some f -> open_handle f = true -> hf_mutex f = None ->
+  let s' := hexec s (HClose h) in
+  hresult s (HClose h) s' = HOk /\
+  fds (h_os s') (hf_fd f) = None /\
+  (forall k, holds (hf_fd f) k (ltab (h_os s') (hf_ino f)) = false) /\
+  nth_error (h_files s') h = Some (set_closed f).
+Proof. exact handle_close_releases. Qed.
+Print Assumptions C06_handle_close_releases.
+
+(* a repeated Close answers with an error and changes NOTHING, whoever owns the number now *)
+Theorem C06_handle_second_close_noop : forall s h f,
+  nth_error (h_files s) h = Some f -> hf_closed f = true ->
+  hexec s (HClose h) = s /\
+  (h_stuck s = false -> h_panic s = false -> hf_ok f = true -> hresult s (HClose h) s = HErr).
+Proof. exact handle_second_close_noop. Qed.
+Print Assumptions C06_handle_second_close_noop.
+
+(* a garbage collection does nothing as long as the caller references what it has not closed *)
+Theorem C06_gc_harmless : forall s,
+  (forall f, In f (h_files s) -> open_handle f = true -> hf_live f = true) -> hexec s HGC = s.
+Proof. exact gc_harmless. Qed.
+Print Assumptions C06_gc_harmless.
+
+(* two Files of one process between return and Close on one file are both read-locked *)
+Theorem C06_handles_exclusion : forall s h1 h2 f1 f2,
+  hinv s -> nth_error (h_files s) h1 = Some f1 -> nth_error (h_files s) h2 = Some f2 ->
+  open_handle f1 = true -> open_handle f2 = true -> h1 <> h2 -> hf_ino f1 = hf_ino f2 ->
+  hf_kind f1 = LSh /\ hf_kind f2 = LSh.
+Proof. exact handles_exclusion. Qed.
+Print Assumptions C06_handles_exclusion.
+
+(* what another process's non-blocking probe finds is exactly what the Files between return and
+   Close say: free iff there is none on the file, write-locked iff one of them is a write-locker *)
+Theorem C06_probe_reads_handles : forall s i, hinv s ->
+  (hprobe s i = PFree <->
+     forall h f, nth_error (h_files s) h = Some f -> open_handle f = true -> hf_ino f <> i) /\
+  (hprobe s i = PExcl <->
+     exists h f, nth_error (h_files s) h = Some f /\ open_handle f = true /\ hf_ino f = i /\ hf_kind f = LEx).
+Proof. exact probe_reads_handles. Qed.
+Print Assumptions C06_probe_reads_handles.
+
+(* one Mutex VALUE locked and unlocked n times, for every n: each Lock is granted at once and the
+   file is write-locked, each unlock function frees it, and the Mutex is ready again *)
+Theorem C06_mutex_reusable : forall n s m i, mutex_ready s m i ->
+  mutex_ready (hrun s (cycles m (length (h_files s)) n)) m i /\
+  seen s (cycles m (length (h_files s)) n) i = cycle_view n.
+Proof. exact mutex_reusable. Qed.
+Print Assumptions C06_mutex_reusable.
